@@ -291,11 +291,14 @@ class FuncRun(ExprMixin, InstrMixin, CallMixin):
             return
         self.facted.add(('entryrefs', name))
         k = T.fresh_name('k')
+        # only objects that exist at entry (k <= alloc0): the entry heap says nothing about what this run (or a callee
+        # whose contract returns a fresh object) allocates later
         if nkeys == 1:
-            self.hyps.append(T.forall([(k, T.INT)], T.le(T.select(a0, T.V(k)), self.ALLOC0)))
+            self.hyps.append(T.forall([(k, T.INT)], T.implies(T.le(T.V(k), self.ALLOC0), T.le(T.select(a0, T.V(k)), self.ALLOC0))))
         else:
             i = T.fresh_name('i')
-            self.hyps.append(T.forall([(k, T.INT), (i, T.INT)], T.le(T.select(T.select(a0, T.V(k)), T.V(i)), self.ALLOC0)))
+            self.hyps.append(T.forall([(k, T.INT), (i, T.INT)], T.implies(T.le(T.V(k), self.ALLOC0),
+                                                                          T.le(T.select(T.select(a0, T.V(k)), T.V(i)), self.ALLOC0))))
 
     def store(self, state, ptr, val):
         if isinstance(ptr, PtrV) and ptr.kind == 'cell':
@@ -398,6 +401,8 @@ class FuncRun(ExprMixin, InstrMixin, CallMixin):
             name = mv if not p else mv + '|' + '.'.join(p)
             arr = self.heap_get(state, name, T.ARR(T.INT, T.ARR(T.INT, s)))
             vals.append(T.select(T.select(arr, m), key))
+            if (p and p[-1] == '#base') or (not (p and p[-1].startswith('#')) and self.ty.kind(lt) in ('pointer', 'map', 'chan')):
+                self.entry_refs_old(name, 2)       # what a map that exists at entry holds exists at entry
         v = self.ty.unflatten(vals, et)
         self.assume_facts(v, et)
         return v
@@ -648,8 +653,10 @@ class FuncRun(ExprMixin, InstrMixin, CallMixin):
                 n, lspec = self.loop_spec(ctx, header)
                 if lspec is None or not lspec.exit_ensures:
                     continue
-                normal_targets = {s_ for s_ in cfg.succs[header] if s_ not in body}
-                if b != header and succ not in normal_targets and returns_at_once(succ):
+                # go/ssa labels the block a loop falls into when it ends or is broken out of `<kind>.done`; any other edge
+                # out of the body that runs straight into a `return` is an early return, not the end of the loop
+                is_done = (cfg.blocks[succ].get('comment') or '').endswith('.done')
+                if not is_done and returns_at_once(succ):
                     continue        # an early `return` from inside the body (a `break` lands where the normal exit lands)
                 env = self.make_env(ctx, st, b)
                 fnname = self.oname if ctx['frame'] == self.top_frame else self.inline_name(ctx)
